@@ -181,6 +181,7 @@ func (e *Exec) staticCall(st *State, instr ssa.Instruction, fn *ssa.Function, cl
 		return
 	}
 	// external function: assumed model
+	st.counts["ext:"+fn.Name()]++
 	if res, ok := e.external(st, instr, name, fn, args, resType, k); ok {
 		if res != nil {
 			k(st, *res)
